@@ -81,7 +81,8 @@ def generic_values(lo: int, hi: int, with_shaped: bool):
 
 
 def names(tier):
-    base = list(D.NAMES) + ["x" * 120, "ü" * 60]
+    # names are octet strings to the protocol: spellings that a path normaliser would rewrite must come back unchanged
+    base = list(D.NAMES) + ["x" * 120, "ü" * 60, "data/", "./a.txt", "/tmp//x", "a/./b", "a/../b", "..", "."]
     if tier != "quick":
         base += ["\x00", "a b", "n" * 63, "n" * 64, "n" * 125, "n" * 126, "ü" * 63, "名" * 41, "é/" * 62, "x" * 200]
     return D.dedupe(base)
